@@ -188,6 +188,14 @@ Definition run_deb822 (op : string) (a : list str) : option str :=
                   match R2u.read_all_u t2 with Some ps3 => show_paras ps3 | None => lit "err" end
               end
           end)
+  else if op =? "wgroups" then
+    (* Encoder.Encode called with slices / structs / pointers in any grouping (second argument, ignored here):
+       the text is that of the paragraphs written one after another *)
+    Some (match R2u.read_all_u (g 0) with
+          | None => lit "err"
+          | Some ps => let t1 := enc_paras ps in
+                       lit "ok " ++ hx t1 ++ sp1 ++ match R2u.read_all_u t1 with Some ps2 => show_paras ps2 | None => lit "err" end
+          end)
   else None.
 
 (* ---- ar reader: C13 C15 ---- *)
